@@ -4,7 +4,8 @@ import os
 from collections import namedtuple
 
 from . import sortfam as F
-from ..engine import Harness
+from ..engine import Harness, Direct
+from . import tokfam
 
 ID = "C08"
 setup = F.setup
@@ -28,6 +29,7 @@ META = {
                     "that record (DESIGN 3.2)", "StageTimer/logger are no-ops", "node tags are read as decimal "
                     "renderings of the symbolic integers (FieldStr)"],
 }
+META["explanation"] += '  sort2-second-graph-in-process: the same records sorted against another build of the graph (same names, other tags) earlier in the same execution.  tokens/cli/sort.py: the path tokenizer decided as a language by z3.'
 
 PATH_MENU = [">s1", "<s1", ">s1>x1", "<x1<s1", ">x1>s2", ">s1>x1>s2", "<s2<x1<s1", ">s1<s2", ">x1", ">t1", ">s1<x1<s2"]
 
@@ -44,6 +46,7 @@ def harnesses(tier):
     for c in combos2:
         hs.append({"id": "sort2/" + "+".join(c), "params": {"kind": "sort", "paths": list(c)}, "timeout": 150,
                    "twin": c == (">s1", ">x1")})
+    hs.append({"id": "sort2-second-graph-in-process/>s1>x1+<s2", "params": {"kind": "sort", "paths": [">s1>x1", "<s2"], "prior": True}, "timeout": 300})
     combos3 = [(">s1", ">s1", ">s1"), (">s1>x1", "<s2", ">x1"), (">s1", ">x1", "<s1")]
     if tier == "thorough":
         combos3 += [(">x1", ">x1", ">s1"), ("<s2<x1<s1", ">s1", ">x1>s2"), (">s1", ">s2", ">t1")]
@@ -55,6 +58,7 @@ def harnesses(tier):
                                                                 "gz_in": True, "gz_out": True}, "timeout": 900})
         hs.append({"id": "sort4/>s1*4", "params": {"kind": "sort", "paths": [">s1"] * 4, "scaffold_ref": False},
                    "timeout": 2400, "path_timeout": 120})
+    hs.append(tokfam.harness("C08", "gaftools/cli/sort.py"))
     return hs
 
 
@@ -66,6 +70,8 @@ def _sign(x):
 
 
 def build(params):
+    if params.get("kind") == "tokens":
+        return Direct(lambda: tokfam.run(params))
     kind = params["kind"]
     if kind == "pair":
         args = [(n, "int") for n in ("o1", "b1", "n1", "s1", "o2", "b2", "n2", "s2")]
@@ -124,6 +130,8 @@ def build(params):
 
 
 def replay(params, model, wd):
+    if params.get("kind") == "tokens":
+        return tokfam.replay(params, model, wd)
     kind = params["kind"]
     if kind == "pair":
         o1, b1, n1, s1, o2, b2, n2, s2 = model["args"]
@@ -174,10 +182,18 @@ def replay(params, model, wd):
         if tuple(got) != tuple(want):
             return {"reproduced": True, "key": "C08:anchor:" + path, "what": "process_alignment -> %r, anchor rule "
                     "says %r" % (got, want), "level": "unit"}
+        # the symbolic run evaluates many graphs in one process: replay the same history (another build of the graph first)
+        os.makedirs(os.path.join(wd, "other"), exist_ok=True)
+        g0 = G.GFA(F.write_graph(os.path.join(wd, "other"), {k: (b + 3, n + 1) for k, (b, n) in tags.items()}), low_memory=True)
+        S.process_alignment(lines[0].split("\t"), g0.nodes, off)
+        got = S.process_alignment(lines[0].split("\t"), g.nodes, off)
+        if tuple(got) != tuple(want):
+            return {"reproduced": True, "key": "C08:anchor:state-kept-between-graphs", "what": "process_alignment -> %r after the same "
+                    "record was processed against another build of the graph in the same process; anchor rule says %r" % (got, want), "level": "unit"}
         return {"reproduced": False, "detail": "anchor rule agrees"}
     used, tags, nums = F.decode_sort(params, model)
     paths = params["paths"]
-    lines, outl, offs, idx, err = F.real_sort(wd, paths, tags, nums, params.get("gz_in"), params.get("gz_out"))
+    lines, outl, offs, idx, err = F.real_sort(wd, paths, tags, nums, params.get("gz_in"), params.get("gz_out"), prior=bool(params.get("prior")))
     if err and "KeyError: 'unknown'" not in err:
         return {"reproduced": True, "key": "C08:sort:exception:" + err.split(":")[0], "what": "run_sort raised " + err,
                 "level": "cli"}
